@@ -779,6 +779,10 @@ def c11(run):
                     steps.append({"s": "ev", "k": rng.randrange(9)})
                 else:
                     steps.append({"s": "resp", "i": rng.randrange(6)})
+            # a command-API timer whose answer and whose clear() both arrive before it is polled again: which one
+            # wins is a function of the history (here: of nothing else than their being both there)
+            for _ in range(rng.choice([0, 1, 3])):
+                steps.insert(rng.randint(0, len(steps)), {"s": "race", "k": rng.randrange(9), "clear_first": rng.random() < 0.5})
             f.write(json.dumps(steps) + "\n")
     outs = []
     nproc = 4 if run.quick else 8
